@@ -104,6 +104,14 @@ def transform_assembly(cx):
     ok = d1 == d2 and not mods
     fn.ob('PAIR', 'the channel list bound in the callable is the list the curves were computed for', ok, p,
           detail='' if ok else 'definitions differ or list modified', key='partial-channels')
+    # ... and the function's own: a copy (or a new one-element list), never the caller's list object, which the
+    # caller may reorder or reuse afterwards while the returned callable is still in use
+    own = [d for d in fn.rd.reaching(fn.node(p), 'mef_channels')]
+    vals = [fn.rd.assigned_value(d, 'mef_channels') if d.kind != 'entry' else None for d in own]
+    ok = bool(own) and all(d.kind != 'entry' for d in own) and all(
+        v is not None and sym.norm(v) in (sym.norm('list(mef_channels)'), sym.norm('[mef_channels]')) for v in vals)
+    fn.ob('PAIR', 'the channel list bound in the callable is a list of the function\'s own (copy of the caller\'s, or a new one-element list)', ok, p,
+          detail='' if ok else 'the caller\'s list object itself may reach the returned callable', key='partial-own-list')
     check_order(fn, 'PAIR', 'calibrated channel list keeps the caller\'s order', 'mef_channels', loop, 'mef_channels')
     # returned value is that callable (plain or as field transform_fxn)
     tname = None
@@ -280,6 +288,10 @@ GMM_ITEMS = [
     ('events of the quantile slice', 'SIC = SI[IL:IH]'),
     ('their values', 'DC = data[SIC]'),
     ('initial mean of the cluster', 'MEANS.append(np.mean(DC, axis=0))'),
+    ('covariance of the slice (1x1 matrix for a single channel)',
+     'COV = np.cov(DC.T).reshape(1, 1) if data.shape[1] == 1 else np.cov(DC.T)'),
+    ('old scikit-learn: mixture with the same initial parameters',
+     "MIX = GMM(n_components=n_clusters, tol=tol, min_covar=min_covar, covariance_type='full', params='mc', init_params='')"),
     ('covariance regularised on its diagonal for every cluster', 'COV += np.eye(data.shape[1]) * min_covar'),
     ('initial covariance of the cluster', 'COVARS.append(COV)'),
     ('means as an array', 'MEANS = np.array(MEANS)'),
@@ -287,9 +299,9 @@ GMM_ITEMS = [
      "PREC = [scipy.linalg.solve(CV, np.eye(CV.shape[0]), assume_a='pos') for CV in COVARS]"),
     ('precisions as an array', 'PREC = np.array(PREC)'),
     ('the mixture is initialised with the quantile means, equal weights and those precisions',
-     "GMM = GaussianMixture(n_components=n_clusters, tol=tol, covariance_type='full', weights_init=W, means_init=MEANS, precisions_init=PREC, max_iter=500)"),
-    ('fit on the rescaled events', 'GMM.fit(data)'),
-    ('responsibilities of every event', 'RESP = GMM.predict_proba(data)'),
+     "MIX = GaussianMixture(n_components=n_clusters, tol=tol, covariance_type='full', weights_init=W, means_init=MEANS, precisions_init=PREC, max_iter=500)"),
+    ('fit on the rescaled events', 'MIX.fit(data)'),
+    ('responsibilities of every event', 'RESP = MIX.predict_proba(data)'),
     ('one label per event sampled from its responsibilities', 'LBL = [np.random.choice(range(n_clusters), p=RI) for RI in RESP]'),
     ('labels returned', 'return LBL'),
 ]
@@ -298,7 +310,7 @@ GMM_ITEMS = [
 def clustering(cx):
     fn = Fn(cx, 'mef.clustering_gmm')
     b = inventory(fn, 'FORMULA', GMM_ITEMS, ['W', 'DIST', 'SI', 'NPC', 'IL', 'IH', 'I', 'DF', 'SIC', 'DC', 'MEANS', 'COV', 'COVARS',
-                                             'GMM', 'RESP', 'LBL', 'RI', 'PREC', 'CV'], rebind_ok=('data', 'min_covar'))
+                                             'MIX', 'RESP', 'LBL', 'RI', 'PREC', 'CV'], rebind_ok=('data', 'min_covar'))
     # the regularisation is applied on every path of the per-cluster loop
     reg = [s for s in fn.stmts(ast.AugAssign) if 'min_covar' in ast.unparse(s)]
     if reg:
